@@ -198,6 +198,12 @@ def memo_findings(P: Program, prefixes: Tuple[str, ...] = ("vtlengine",)) -> Lis
         reads_env = any(isinstance(c, ast.Call) and src(c.func) in ("os.getenv", "os.environ.get") or (isinstance(c, ast.Subscript) and src(c.value) == "os.environ") for c in ast.walk(f.node))
         if why is None and reads_env:
             why = "reads the process environment: the first answer is frozen for the life of the process"
+        reads_file = next((c for c in ast.walk(f.node) if isinstance(c, ast.Call) and (
+            (isinstance(c.func, ast.Name) and c.func.id == "open")
+            or (isinstance(c.func, ast.Attribute) and c.func.attr in ("read_text", "read_bytes", "open", "stat", "exists", "is_file", "getsize", "getmtime", "sniff", "read_csv", "readline", "read")))), None)
+        if why is None and reads_file is not None:
+            why, line = (f"reads a file (`{src(reads_file)[:50]}`) and is memoised on its arguments (the path, not the content): when the file is rewritten the first answer "
+                         f"is still returned"), reads_file.lineno
         if why is None:
             # depends (through in-repo callees, depth <= 3) on a process-global that something writes: the cache key omits it
             inv = _INV.get(id(P))
